@@ -678,10 +678,10 @@ func c04RunEdge(R *vkit.Report, e c04Edge, c c04Case) {
 		c04Viol(R, "panic", e.Group+"|"+pn.Phase, fmt.Sprintf("contract edge %q: builder accepted it, then %s", e.Name, pn), c)
 		return
 	}
-	if problem != "" && strings.HasPrefix(e.Group, "valuelen") {
-		// The statement quantifies over FIXED-SIZE values: a value whose length differs from the declared
-		// value size is outside its precondition. What the builder does with it (truncate / zero-pad)
-		// is recorded as an observation, not decided against.
+	if problem != "" && strings.HasPrefix(e.Group, "valuelen<") {
+		// The statement quantifies over FIXED-SIZE values. A SHORTER value is zero-padded (the repository's own
+		// tests rely on that: they store 7-byte CIDs in a 36-byte index): recorded as an observation. A LONGER value
+		// would be cut - an unsupported value size that must end in an error (judged below like every other edge).
 		R.Outcome("edge:" + e.Group + ":observed-not-demanded")
 		R.Add("value_length_mismatch_silently_adjusted(not demanded)", 1)
 		R.Note("[%s] edge %q: %s (observation only: values of the wrong length are outside the statement's precondition)", c04Format, e.Name, problem)
